@@ -546,6 +546,7 @@ func (w *World) projStr(ctx sdk.Context) J {
 		}
 	}
 	out["s"] = ss
+	out["order"] = w.streamOrder(sortedKeys(ss))
 	out["inv"] = w.invariantHolds("stream")
 	return out
 }
